@@ -550,6 +550,47 @@ class _SliceFields(ast.NodeTransformer):
         return node
 
 
+def read_cursor_update(fn):
+    """(new position as a linear / min form over P = position, N = n_frames, T = number of frames, or None; the update statement or None)"""
+    from ..pyfront import inline_locals
+    bound, _mc = _window_bound(fn)
+    env = {"self._frame_index": {"P": 1}, "n_frames": {"N": 1}, "self.n_frames": {"T": 1}}
+    if bound is not None:
+        env[bound] = {"T": 1}
+
+    def value(e):
+        try:
+            t = _SliceFields().visit(ast.parse(inline_locals(fn, e), mode="eval").body)
+        except SyntaxError:
+            return None
+        return lin(ast.parse(src(t), mode="eval").body, env)
+    new = site = None
+    for n in walk_no_nested(fn):
+        if isinstance(n, ast.AugAssign) and dotted(n.target) == "self._frame_index" and isinstance(n.op, ast.Add):
+            l = value(n.value)
+            new = None
+            if l is not None:
+                new = dict(l)
+                new["P"] = new.get("P", 0) + 1
+                new = {k: v for k, v in new.items() if v != 0}
+            site = n
+        if isinstance(n, ast.Assign) and dotted(n.targets[0]) == "self._frame_index":
+            new = value(n.value)
+            site = n
+    return new, site
+
+
+def is_clamped_advance(new):
+    """new == min(P + N, T)"""
+    if new is None or len(new) != 1:
+        return False
+    (k, v), = new.items()
+    if isinstance(k, tuple) and k[0] == "min" and v == 1 and (k[1] == _freeze({"T": 1}) or k[2] == _freeze({"T": 1})):
+        other = dict(k[2] if k[1] == _freeze({"T": 1}) else k[1])
+        return other == {"P": 1, "N": 1}
+    return False
+
+
 def _r2(ctx):
     from ..pyfront import inline_locals
     for key in ("h5", "nc", "lh5"):
